@@ -3,6 +3,8 @@
 package chain
 
 import (
+	"sync"
+
 	"crypto/ed25519"
 	"crypto/sha256"
 	"encoding/hex"
@@ -11,6 +13,12 @@ import (
 	"github.com/pokt-network/pocket-core/crypto"
 	sdk "github.com/pokt-network/pocket-core/types"
 )
+
+var cdcOnce sync.Once
+
+// InitCodec forces the application's lazily-built global codec into existence exactly once
+// (app.Codec() is not safe for concurrent first use).
+func InitCodec() { cdcOnce.Do(func() { _ = appCodec() }) }
 
 // Key returns the i-th deterministic ed25519 key of the test universe (same in every process).
 func Key(i int) crypto.PrivateKey {
